@@ -747,6 +747,19 @@ func TestVerifC01(t *testing.T) {
 				}
 			}
 		}
+		// the submitted certificate is itself in the trusted pool: validated path of length 1, empty issuance chain; the
+		// extra data is then the empty certificate_chain `000000` (add-chain).  A trusted self-issued precertificate
+		// has no issuer in its path: no entry can be derived (add-pre-chain answers 400).
+		{
+			lg.submit([]*vCert{w.roots[0]}, []*vCert{w.roots[0]}, false, c01Clocks[(wi+1)%len(c01Clocks)], "a trusted root submitted as the leaf")
+			sp := vIssue(vSpec{cn: fmt.Sprintf("c01w%d trusted self-issued precert", wi), key: keys[r.Intn(len(keys))], isCA: true, keyUsage: vCAUsage, poison: vPoisonOK})
+			lg.li.validationOpts.trustedRoots.AddCert(sp.c)
+			lg.submit([]*vCert{sp}, []*vCert{sp}, true, c01Clocks[3], "a trusted self-issued precertificate submitted alone")
+			ti := vIssue(vSpec{cn: fmt.Sprintf("c01w%d trusted intermediate", wi), key: keys[r.Intn(len(keys))], issuer: w.roots[0], isCA: true, keyUsage: vCAUsage})
+			lg.li.validationOpts.trustedRoots.AddCert(ti.c)
+			lg.submit([]*vCert{ti}, []*vCert{ti}, false, c01Clocks[4], "a trusted intermediate submitted as the leaf")
+			out.Count("mode:path-of-length-1")
+		}
 		// a Precertificate Signing Certificate that is itself a trust anchor: no final issuer in the path, no entry
 		{
 			pr := vIssue(vSpec{cn: fmt.Sprintf("c01w%d trusted preissuer", wi), key: keys[r.Intn(len(keys))], isCA: true, keyUsage: vCAUsage, ctEKU: true})
